@@ -208,7 +208,7 @@ def generate(rng, prefix="", n_funcs=None, with_main=True, rich=True):
              "flag", "printv", "len", "guard", "eprint"]
     if not words:
         kinds.remove("word")
-    kinds += ["sizeof", "noop", "sizedptr", "grid", "shared_text"]
+    kinds += ["sizeof", "noop", "noop", "sizedptr", "grid", "shared_text"]
     if opaque:
         kinds.append("opaque")
     if small_words:
